@@ -38,10 +38,11 @@ func niFacts(g *engine.Graph, target *engine.Site) []niFact {
 func niGateFacts(gt engine.Gate) []niFact {
 	var out []niFact
 	var atoms []ast.Expr
+	full := gt.Full()
 	if gt.OnTrue {
-		atoms = engine.Conjuncts(gt.Cond, token.LAND)
+		atoms = engine.Conjuncts(full, token.LAND)
 	} else {
-		atoms = engine.Conjuncts(gt.Cond, token.LOR)
+		atoms = engine.Conjuncts(full, token.LOR)
 	}
 	for _, a := range atoms {
 		holds := gt.OnTrue
@@ -540,4 +541,349 @@ func niBoundCall(f *engine.Fn, pats ...string) (*engine.Site, []types.Object) {
 		return nil, nil
 	}
 	return ss[0], niAssignedFromCall(f, ss[0])
+}
+
+// ---------------------------------------------------------------------------
+// Helper-transparent facts (robustness against "extract helper" refactors).
+
+// niCtxFact is a fact together with the function whose variables it speaks
+// about. For a fact imported from a helper (a checked helper result gates the
+// target: `if err := h(a, b); err != nil { return }`), Loc translates an
+// object of the analysed function (an argument, the receiver, a variable
+// bound to a helper result) to its counterpart inside the helper.
+type niCtxFact struct {
+	niFact
+	Fn       *engine.Fn
+	Imported bool
+	loc      map[types.Object]types.Object
+}
+
+// Loc returns the object of c.Fn that stands for the analysed function's
+// object o (o itself for a local fact; nil when there is no counterpart).
+func (c niCtxFact) Loc(o types.Object) types.Object {
+	if o == nil {
+		return nil
+	}
+	if !c.Imported {
+		return o
+	}
+	return c.loc[o]
+}
+
+// Outer returns the analysed function's object that corresponds to the
+// helper-side object lo (inverse of Loc).
+func (c niCtxFact) Outer(lo types.Object) types.Object {
+	if !c.Imported {
+		return lo
+	}
+	for k, v := range c.loc {
+		if v == lo && lo != nil {
+			return k
+		}
+	}
+	return nil
+}
+
+func (c niCtxFact) Info() *types.Info { return c.Fn.Info() }
+
+// niSuccessReturns lists the returns of h whose result idx is "good": the nil
+// identifier (wantNil) or the boolean constant want.
+func niSuccessReturns(h *engine.Fn, idx int, wantNil bool, want bool) []*engine.Site {
+	var out []*engine.Site
+	for _, r := range niReturns(h) {
+		rs := r.Node.(*ast.ReturnStmt)
+		if idx >= len(rs.Results) {
+			continue
+		}
+		e := rs.Results[idx]
+		if wantNil {
+			if isNil(e) {
+				out = append(out, r)
+			}
+			continue
+		}
+		if tv, ok := h.Info().Types[e]; ok && tv.Value != nil {
+			if (tv.Value.ExactString() == "true") == want {
+				out = append(out, r)
+			}
+		} else {
+			// non-constant boolean result: the return may produce either value
+			out = append(out, r)
+		}
+	}
+	return out
+}
+
+// niHelperOf resolves the call that produced the value tested by a fact:
+// either the fact's operand is a call of a function of the loaded program, or
+// a variable whose only reaching definition at the test is such a call.
+// Returned: the call site in f, the helper, and the result index tested.
+func niHelperOf(f *engine.Fn, e ast.Expr, at *engine.Site) (*engine.Site, *engine.Fn, int) {
+	info := f.Info()
+	e = ast.Unparen(e)
+	if call, ok := e.(*ast.CallExpr); ok {
+		if fo, _ := engine.ObjOf(info, call.Fun).(*types.Func); fo != nil {
+			if h := f.Prog.FnOf(fo); h != nil {
+				if s := f.SiteOf(call); s != nil {
+					return s, h, 0
+				}
+			}
+		}
+		return nil, nil, 0
+	}
+	id, ok := e.(*ast.Ident)
+	if !ok || at == nil {
+		return nil, nil, 0
+	}
+	obj := info.ObjectOf(id)
+	defs := niReachingDefs(f, obj, at)
+	if len(defs) != 1 || defs[0].Call == nil {
+		return nil, nil, 0
+	}
+	fo, _ := engine.ObjOf(info, defs[0].Call.Fun).(*types.Func)
+	h := f.Prog.FnOf(fo)
+	if h == nil {
+		return nil, nil, 0
+	}
+	idx := 0
+	if as, ok := defs[0].Site.Node.(*ast.AssignStmt); ok {
+		for i, l := range as.Lhs {
+			if lid, ok := l.(*ast.Ident); ok && info.ObjectOf(lid) == obj {
+				idx = i
+			}
+		}
+	}
+	cs := f.SiteOf(defs[0].Call)
+	if cs == nil {
+		return nil, nil, 0
+	}
+	return cs, h, idx
+}
+
+// niParamMap maps objects of the caller (plain identifier arguments and the
+// receiver) to the helper's parameter objects for one call site.
+func niParamMap(f *engine.Fn, call *ast.CallExpr, h *engine.Fn) map[types.Object]types.Object {
+	m := map[types.Object]types.Object{}
+	info := f.Info()
+	for i, a := range call.Args {
+		a = ast.Unparen(a)
+		if u, ok := a.(*ast.UnaryExpr); ok && u.Op == token.AND {
+			a = ast.Unparen(u.X)
+		}
+		if id, ok := a.(*ast.Ident); ok {
+			if po := paramObj(h, i); po != nil && info.ObjectOf(id) != nil {
+				m[info.ObjectOf(id)] = po
+			}
+		}
+	}
+	if rx := niRecvExpr(call); rx != nil {
+		if id, ok := ast.Unparen(rx).(*ast.Ident); ok && niRecv(h) != nil && info.ObjectOf(id) != nil {
+			m[info.ObjectOf(id)] = niRecv(h)
+		}
+	}
+	return m
+}
+
+// niFactsDeep returns the facts that hold at target in f, including the facts
+// that hold at the successful returns of helpers whose checked result gates
+// the target (depth-limited).
+func niFactsDeep(f *engine.Fn, target *engine.Site, depth int) []niCtxFact {
+	g := f.Graph()
+	var out []niCtxFact
+	for _, ft := range niFacts(g, target) {
+		out = append(out, niCtxFact{niFact: ft, Fn: f})
+		if depth <= 0 {
+			continue
+		}
+		at := f.SiteOf(ft.Gate.Cond)
+		var cs *engine.Site
+		var h *engine.Fn
+		var idx int
+		wantNil, want := false, false
+		if cmp, ok := niAsCmp(ft); ok && (cmp.Op == token.EQL) && (isNil(cmp.Y) || isNil(cmp.X)) {
+			x := cmp.X
+			if isNil(x) {
+				x = cmp.Y
+			}
+			cs, h, idx = niHelperOf(f, x, at)
+			wantNil = true
+		} else if _, isCmp := ast.Unparen(ft.Expr).(*ast.BinaryExpr); !isCmp {
+			cs, h, idx = niHelperOf(f, ft.Expr, at)
+			want = ft.Holds
+			if h != nil && (h.Type.Results == nil || !niIsBoolResult(h, idx)) {
+				h = nil
+			}
+		}
+		if h == nil || cs == nil || h == f {
+			continue
+		}
+		rets := niSuccessReturns(h, idx, wantNil, want)
+		if len(rets) == 0 {
+			continue
+		}
+		pm := niParamMap(f, cs.Call, h)
+		bound := niAssignedFromCall(f, cs)
+		// facts per return, keyed for intersection
+		type keyed struct {
+			k string
+			c niCtxFact
+		}
+		var per [][]keyed
+		for _, r := range rets {
+			var ks []keyed
+			loc := map[types.Object]types.Object{}
+			for k, v := range pm {
+				loc[k] = v
+			}
+			rs := r.Node.(*ast.ReturnStmt)
+			for j, b := range bound {
+				if b != nil && j < len(rs.Results) {
+					if ro := engine.ObjOf(h.Info(), rs.Results[j]); ro != nil {
+						loc[b] = ro
+					}
+				}
+			}
+			for _, in := range niFactsDeep(h, r, depth-1) {
+				nc := niCtxFact{niFact: in.niFact, Fn: in.Fn, Imported: true, loc: map[types.Object]types.Object{}}
+				for k, v := range loc {
+					if in.Imported {
+						if vv := in.loc[v]; vv != nil {
+							nc.loc[k] = vv
+						}
+					} else {
+						nc.loc[k] = v
+					}
+				}
+				ks = append(ks, keyed{engine.ExprString(in.Expr) + map[bool]string{true: "+", false: "-"}[in.Holds] + in.Fn.Name, nc})
+			}
+			per = append(per, ks)
+		}
+		for _, k0 := range per[0] {
+			inAll := true
+			for _, other := range per[1:] {
+				found := false
+				for _, k1 := range other {
+					if k1.k == k0.k {
+						found = true
+					}
+				}
+				if !found {
+					inAll = false
+				}
+			}
+			if inAll {
+				out = append(out, k0.c)
+			}
+		}
+	}
+	return out
+}
+
+func niIsBoolResult(h *engine.Fn, idx int) bool {
+	if h.Obj == nil {
+		return false
+	}
+	sig, _ := h.Obj.Type().(*types.Signature)
+	if sig == nil || idx >= sig.Results().Len() {
+		return false
+	}
+	b, ok := sig.Results().At(idx).Type().Underlying().(*types.Basic)
+	return ok && b.Kind() == types.Bool
+}
+
+// niDeepBefore: every deep call (from f, through in-program helpers) matching
+// pb is preceded by a deep call matching pa that dominates it and cannot run
+// after it. When both lie inside the same helper call the order is decided
+// inside that helper. nB is the number of pb sites found.
+func niDeepBefore(f *engine.Fn, depth int, pa, pb []string) (ok bool, nB int) {
+	return niDeepBeforeF(f, depth, pa, pb, nil)
+}
+
+// niDeepBeforeF is niDeepBefore over the deep sites accepted by keep.
+func niDeepBeforeF(f *engine.Fn, depth int, pa, pb []string, keep func(engine.DeepSite) bool) (ok bool, nB int) {
+	g := f.Graph()
+	filter := func(ds []engine.DeepSite) []engine.DeepSite {
+		if keep == nil {
+			return ds
+		}
+		var out []engine.DeepSite
+		for _, d := range ds {
+			if keep(d) {
+				out = append(out, d)
+			}
+		}
+		return out
+	}
+	A := filter(f.DeepCallsTo(depth, pa...))
+	B := filter(f.DeepCallsTo(depth, pb...))
+	if len(B) == 0 {
+		return false, 0
+	}
+	for _, b := range B {
+		found := false
+		for _, a := range A {
+			if a.Outer != b.Outer {
+				if g.Dominates(a.Outer, b.Outer) && !g.ReachableAfterInIteration(b.Outer, a.Outer) {
+					found = true
+				}
+			} else if len(a.Chain) > 0 && len(b.Chain) > 0 && a.Chain[0] == b.Chain[0] && depth > 0 {
+				if ok2, _ := niDeepBeforeF(a.Chain[0], depth-1, pa, pb, keep); ok2 {
+					found = true
+				}
+			}
+		}
+		if !found {
+			return false, len(B)
+		}
+	}
+	return true, len(B)
+}
+
+// niDeepChecked: the error result of the (deep) call d gates target in f: the
+// outer call's result is nil-tested with the failing side unable to reach the
+// target, and (when d lies in a helper) every successful return of each helper
+// on the chain is likewise gated by the inner call's nil test.
+func niDeepChecked(f *engine.Fn, d engine.DeepSite, target *engine.Site) (bool, string) {
+	g := f.Graph()
+	gr := g.CheckedGuard(d.Outer, target)
+	if !gr.OK {
+		return false, gr.Why
+	}
+	if d.Inner == d.Outer {
+		if !c39NilTestPasses(gr) {
+			return false, "result tested by `" + engine.ExprString(gr.Cond) + "`"
+		}
+		return true, "checked"
+	}
+	// the helper's result must be tested for success
+	be, isB := ast.Unparen(gr.Cond).(*ast.BinaryExpr)
+	wantNil := isB && isNil(be.Y)
+	if wantNil && !c39NilTestPasses(gr) {
+		return false, "helper result tested by `" + engine.ExprString(gr.Cond) + "`"
+	}
+	if len(d.Chain) != 1 {
+		return false, "call nested more than one helper deep"
+	}
+	h := d.Chain[0]
+	var rets []*engine.Site
+	if wantNil {
+		nres := 0
+		if h.Type.Results != nil {
+			nres = h.Type.Results.NumFields()
+		}
+		rets = niSuccessReturns(h, nres-1, true, false)
+	} else {
+		pos := gr.OnTrue != isNot(gr.Cond)
+		rets = niSuccessReturns(h, 0, false, pos)
+	}
+	if len(rets) == 0 {
+		return false, "helper " + h.Name + " has no successful return"
+	}
+	for _, r := range rets {
+		ig := h.Graph().CheckedGuard(d.Inner, r)
+		if !ig.OK || !c39NilTestPasses(ig) {
+			return false, "inside " + h.Name + " the call's error does not gate the successful return"
+		}
+	}
+	return true, "checked (through " + h.Name + ")"
 }
